@@ -3,7 +3,11 @@ import contracts.all  # noqa
 import contracts.storage as ST
 import contracts.standins_storage as B
 
-PROVED = [ST.save_from, ST.saver_close, ST.saver_save, ST.frontend_find, ST.can_overwrite, ST.filesaver_init]
+import contracts.context as CX
+# check_cache: "nothing is saved while incomplete data may be loaded / under a partial request" (dominance obligations);
+# save_file: the chunk file is written under a temporary name and renamed afterwards
+PROVED = [ST.save_from, ST.saver_close, ST.saver_save, ST.frontend_find, ST.can_overwrite, ST.filesaver_init, CX.check_cache,
+          ST.save_file_str, ST._save_file_c]
 
 PROPERTY = Property(
     "C04", "proof",
